@@ -20,7 +20,8 @@ ASSUMPTIONS = [
     'class families are single-inheritance chains of generated classes deriving from Savable; Savable.persist() is the default no-op',
     'objects are trees (no aliasing between members); method names (m0..) and member names are disjoint; a bound method '
     'member is a method of a generated class',
-    'plain member values are JSON-like (ints, strings, lists, dicts); copy.deepcopy is the real one',
+    'plain member values are ints, strings, None/bools, lists, dicts, tuples and frozensets (of hashables, incl. hashable '
+    'objects with mutable content), nested; tuples / frozensets / boxes are rendered with their own tag; copy.deepcopy is the real one',
     'custom loaders raise ValueError for identifiers they cannot resolve (the ObjectLoader contract) and can name every class involved',
     'at most one injected fault (missing member / foreign method) or one tampering per case, so the error raised does not '
     'depend on the iteration order of the _auto_persist set',
@@ -74,8 +75,45 @@ def ref_family(n, decls):
 # ---------------------------------------------------------------------------------------------------------------------
 # case <-> line
 
-def jtok(v):
+def _dumps(v):
     return json.dumps(v, separators=(',', ':'), sort_keys=True)
+
+
+def canon(x):
+    """JSON-able canonical description of a plain value: tuples, frozensets and boxes (hashable objects with mutable
+    content) carry their own tag, so that a tuple is not a list and the content *inside* immutable containers shows"""
+    if isinstance(x, tuple):
+        return {'!t': [canon(y) for y in x]}
+    if isinstance(x, frozenset):
+        return {'!fs': sorted((canon(y) for y in x), key=_dumps)}
+    if type(x).__name__ == 'Box' and hasattr(x, 'items') and hasattr(x, 'key'):
+        return {'!box': [x.key, canon(x.items)]}
+    if isinstance(x, list):
+        return [canon(y) for y in x]
+    if isinstance(x, dict):
+        return {k: canon(y) for k, y in x.items()}
+    return x
+
+
+def decode(d):
+    """the live plain value that a canonical description denotes"""
+    if isinstance(d, list):
+        return [decode(y) for y in d]
+    if isinstance(d, dict):
+        if set(d) == {'!t'}:
+            return tuple(decode(y) for y in d['!t'])
+        if set(d) == {'!fs'}:
+            return frozenset(decode(y) for y in d['!fs'])
+        if set(d) == {'!box'}:
+            from harness.props import c19_classes as cc
+            return cc.Box(d['!box'][0], decode(d['!box'][1]))
+        return {k: decode(y) for k, y in d.items()}
+    return d
+
+
+def jtok(v):
+    """canonical token of a plain value, live or described (a description is its own canonical form)"""
+    return _dumps(canon(v))
 
 
 def val_tokens(v):
@@ -182,7 +220,7 @@ def build(v, holder, env):
     import plumpy
     k = v[0]
     if k == 'p':
-        return copy.deepcopy(v[1])
+        return decode(v[1])
     if k == 'm':
         return getattr(holder if v[1] else env['other'], v[2])
     if k == 'o':
@@ -212,6 +250,11 @@ def mutate(x, seen=None):
         for y in x.values():
             mutate(y)
         x['MUT'] = 1
+    elif isinstance(x, (tuple, frozenset)):
+        for y in x:                       # immutable itself, but what it holds may change in place
+            mutate(y)
+    elif type(x).__name__ == 'Box':
+        mutate(x.items)
     elif isinstance(x, plumpy.SavableFuture):
         if x.done() and not x.cancelled() and x.exception() is None:
             mutate(x.result())
@@ -538,7 +581,36 @@ def rand_plain(rng, depth=2):
     if r < 0.8 or depth == 0:
         return [rand_plain(rng, 0) for _ in range(rng.randint(0, 3))] if depth == 0 else \
             [rand_plain(rng, depth - 1) for _ in range(rng.randint(0, 3))]
-    return {rng.choice(['k', 'x', 'y']): rand_plain(rng, depth - 1) for _ in range(rng.randint(0, 2))}
+    if r < 0.88:
+        return {rng.choice(['k', 'x', 'y']): rand_plain(rng, depth - 1) for _ in range(rng.randint(0, 2))}
+    if r < 0.96:
+        # a tuple: immutable itself, usually holding something mutable
+        return {'!t': [rand_plain(rng, depth - 1) for _ in range(rng.randint(0, 3))]}
+    return rand_frozenset(rng)
+
+
+def rand_hashable(rng, depth=1):
+    r = rng.random()
+    if r < 0.4:
+        return rng.randint(0, 9)
+    if r < 0.6:
+        return rng.choice(['s', 'u', ''])
+    if r < 0.8 or depth == 0:
+        # tuples of scalars only: boxes are equal by key, two tuples holding boxes could collapse into one element
+        return {'!t': [rng.randint(0, 9) for _ in range(rng.randint(0, 2))]}
+    return {'!box': [rng.randint(0, 3), [rng.randint(0, 5) for _ in range(rng.randint(0, 2))]]}
+
+
+def rand_frozenset(rng):
+    """a frozenset of hashables, some of them boxes (hashable, with content that changes in place)"""
+    elems = {}
+    for _ in range(rng.randint(0, 3)):
+        e = rand_hashable(rng)
+        if isinstance(e, dict) and '!box' in e:
+            elems[('box', e['!box'][0])] = e      # boxes are equal by key: at most one per key
+        else:
+            elems[_dumps(e)] = e
+    return {'!fs': sorted(elems.values(), key=_dumps)}
 
 
 def rand_future(rng, n, eff, nmeth, depth):
@@ -665,6 +737,12 @@ CORPUS = [
     # F15: the loader recorded by a per-save custom loader is found and used by load()
     dict(n=1, nmeth=1, decls=[('d', 0, ['a', 'b'])], g='D', s='X', h='D', l='-', t='none',
          obj=('o', 0, [('a', ('p', {'k': [1]})), ('b', ('m', True, 'm0'))])),
+    # copied at save time, also *inside* immutable containers: a tuple (frozenset) member holding mutable elements
+    dict(n=1, nmeth=0, decls=[('d', 0, ['args', 'items'])], g='D', s='-', h='D', l='-', t='none',
+         obj=('o', 0, [('args', ('p', {'!t': [['a', 'b'], {'n': 1}]})), ('items', ('p', ['x']))])),
+    dict(n=2, nmeth=0, decls=[('d', 0, ['a']), ('d', 1, ['n'])], g='D', s='-', h='D', l='-', t='none',
+         obj=('o', 1, [('a', ('p', {'!fs': [1, {'!box': [0, [1, 2]]}]})),
+                       ('n', ('o', 0, [('a', ('p', {'!t': [{'!t': [[0]]}, 's']}))]))])),
     # copy on inherit / sharing
     dict(n=2, nmeth=0, decls=[('d', 0, ['a']), ('d', 1, ['b'])], g='D', s='-', h='D', l='-', t='none',
          obj=('o', 0, [('a', ('p', [0]))])),
@@ -676,7 +754,7 @@ CORPUS = [
 def std_objects(eff, n, nmeth):
     """one object per member kind / future state for the systematic part (top class = the last one)"""
     c = n - 1
-    kinds = [('p', [1, {'k': 's'}]), ('fp',), ('fc',), ('fe', 'ValueError', 'boom'), ('fr', ('p', [3])),
+    kinds = [('p', [1, {'k': 's'}]), ('p', {'!t': [[1], {'k': [2]}, {'!fs': [{'!box': [0, [3]]}]}]}), ('fp',), ('fc',), ('fe', 'ValueError', 'boom'), ('fr', ('p', [3])),
              ('fr', ('o', 0, [(m, ('p', 7)) for m in (eff[0] or [])])),
              ('o', 0, [(m, ('p', [2])) for m in (eff[0] or [])])]
     if nmeth:
@@ -698,7 +776,7 @@ def gen_cases(ctx):
     objs = std_objects(eff, 2, 1)
     for cfg in loader_configs():
         for t in TAMPERS:
-            for o in (objs if t in ('none', 'nested') else objs[:2]):
+            for o in (objs if t in ('none', 'nested') else objs[:3]):
                 cases.append(dict(fam, **cfg, t=t, obj=o))
                 n_sys += 1
     # systematic 2: every sequence of <= 3 declarations over a chain of <= 3 classes (kind x class x member)
